@@ -59,6 +59,10 @@ func runC05(w *World, r *Report) {
 	c05FuncMap(w, r)
 	c05SchemaLoader(w, r)
 	c05EngineState(w, r, scope)
+	r.Rule("C05/WIRING", "EnableDNS is fed only from the option of the same name, carried into the install started by upgrade --install, and bound to its own command-line flag", 3)
+	checkWiring(w, r, "C05/WIRING", map[string]bool{"EnableDNS": true})
+	checkCarried(w, r, "C05/WIRING", []string{"EnableDNS"})
+	checkFlagBinding(w, r, "C05/WIRING", map[string]bool{"EnableDNS": true})
 }
 
 func c05Scope(w *World, r *Report) map[*ssa.Function]bool {
@@ -760,6 +764,22 @@ func c05SchemaLoader(w *World, r *Report) {
 }
 
 func c05EngineState(w *World, r *Report, scope map[*ssa.Function]bool) {
+	// rendering is sequential: no goroutine is started on the render path (results gathered from
+	// goroutines arrive in completion order)
+	goAt := ""
+	for fn := range scope {
+		if !inHelm(fn) {
+			continue
+		}
+		for _, b := range fn.Blocks {
+			for _, in := range b.Instrs {
+				if _, ok := in.(*ssa.Go); ok {
+					goAt = w.InstrPos(in) + " in " + FuncName(fn)
+				}
+			}
+		}
+	}
+	r.Check(goAt == "", "C05/ENGINE-STATE", "no-goroutines", "-", "no goroutine is started on the render path", "a goroutine is started on the render path ("+goAt+"): what it produces is collected in completion order, which differs from run to run")
 	bad := ""
 	for fn := range scope {
 		if !inHelm(fn) {
